@@ -789,6 +789,8 @@ func runRegSched(c caseIn) *caseOut {
 
 // ------------------------------------------------------------------------------------------------ client mapping cap
 
+var barrierBroken atomic.Bool
+
 type spinBarrier struct {
 	n        int64
 	arrived  atomic.Int64
@@ -824,14 +826,15 @@ func (f *fakeClient) TrackTraffic(mappingID string, s, r int64) error           
 func (f *fakeClient) GetUserQuota() (*models.UserQuota, error) {
 	// kind "user": checkConnectionQuota calls this immediately BEFORE activeConnCount.Load(); the racing arrivals
 	// rendezvous here (spin barrier) so that they reach the Load within nanoseconds of each other
-	if b := f.barrier.Load(); b != nil {
+	if b := f.barrier.Load(); b != nil && !barrierBroken.Load() {
 		b.arrived.Add(1)
-		deadline := time.Now().Add(2 * time.Second) // watchdog: a tree that asks for the quota only once never fills the barrier
+		deadline := time.Now().Add(500 * time.Millisecond) // watchdog: a tree that asks for the quota only once never fills the barrier
 		for spins := 0; b.arrived.Load() < b.n; spins++ {
 			if spins%1024 == 1023 {
 				runtime.Gosched()
 				if time.Now().After(deadline) {
 					b.timedOut.Store(true)
+					barrierBroken.Store(true) // do not wait again in this process: the remaining trials run without rendezvous
 					break
 				}
 			}
